@@ -114,6 +114,7 @@ def construct_repetition_code_circuit_simplified(qec_cycles: int, description: O
 
     result.add(Barrier(description.qubit_indices))
     result.add(cycle_circuit)
+    result.add(Barrier(description.qubit_indices))
     result.add(get_circuit_final_measurement(
         connectivity=description,
         registry=registry,
